@@ -35,20 +35,48 @@ HARNESS(h_processor_lifecycle) {
     symx_witness();
 }
 
+/* stand-in for a transform kernel that is outside the encoding: an arbitrary (uninterpreted) function of its tag and of ALL
+   the cells it is given decides every output cell, so any foreign value in any cell shows in every output. Results are kept
+   finite doubles in [16,32) so that the conversions after the transform stay defined; cell i gets its own constant. */
+extern "C" uint64_t __CPROVER_uninterpreted_xf(uint64_t tag, uint64_t d, uint64_t c0, uint64_t c1, uint64_t c2, uint64_t c3, uint64_t c4, uint64_t c5, uint64_t c6,
+                                               uint64_t c7, uint64_t c8, uint64_t c9, uint64_t c10, uint64_t c11, uint64_t c12, uint64_t c13, uint64_t c14);
+static uint64_t bits_fold(uint64_t tag, uint64_t d, const double *data, int n) {
+    for (int i = 0; i < n; i += 15) {
+        uint64_t c[15];
+        for (int k = 0; k < 15; k++) { c[k] = 0; if (i + k < n) __builtin_memcpy(&c[k], &data[i + k], 8); }
+        d = __CPROVER_uninterpreted_xf(tag, d, c[0], c[1], c[2], c[3], c[4], c[5], c[6], c[7], c[8], c[9], c[10], c[11], c[12], c[13], c[14]);
+    }
+    return d;
+}
+static void bits_spread(double *data, int n, uint64_t d) {
+    for (int i = 0; i < n; i++) {
+        uint64_t b = (d ^ ((uint64_t) (i + 1) * 0x9E3779B97F4A7C15ULL)) & 0x800FFFFFFFFFFFFFULL | 0x4030000000000000ULL;
+        __builtin_memcpy(&data[i], &b, 8);
+    }
+}
+#if PROC == 0
+/* modular query: the wrappers with the transform replaced by an in-place function of all 2N real and all 2N imaginary cells;
+   the transform itself is the subject of h_transform_tables_readonly */
+#if STUB_ON(stub_fft_transform)
+extern "C" void STUBNAME(fft_transform)(const void *tables, double *real, double *imag) {
+    uint64_t d = bits_fold(1, bits_fold(1, 0, real, 2 * PN), imag, 2 * PN); bits_spread(real, 2 * PN, d); bits_spread(imag, 2 * PN, ~d);
+}
+#endif
+#if STUB_ON(stub_fft_transform_reverse)
+extern "C" void STUBNAME(fft_transform_reverse)(const void *tables, double *real, double *imag) {
+    uint64_t d = bits_fold(2, bits_fold(2, 0, real, 2 * PN), imag, 2 * PN); bits_spread(real, 2 * PN, d); bits_spread(imag, 2 * PN, ~d);
+}
+#endif
+#endif
 #if PROC == 1
 /* the hand-written assembly kernels are outside the encoding: an in-place transform that reads every input cell and writes
    every output cell (a chain of uninterpreted operations over all n inputs) */
 extern "C" double *fft_table_get_buffer(const void *tables);
-static void uf_transform(double *data, int n) {
-    double acc = 0.0;
-    for (int i = 0; i < n; i++) acc = acc * 0.5 + data[i];
-    for (int i = 0; i < n; i++) data[i] = acc * (double) (i + 1) + data[i];
-}
 #if STUB_ON(stub_fft)
-extern "C" void STUBNAME(fft)(const void *tables, double *data) { uf_transform(data, PN); }
+extern "C" void STUBNAME(fft)(const void *tables, double *data) { bits_spread(data, PN, bits_fold(3, 0, data, PN)); }
 #endif
 #if STUB_ON(stub_ifft)
-extern "C" void STUBNAME(ifft)(const void *tables, double *data) { uf_transform(data, PN); }
+extern "C" void STUBNAME(ifft)(const void *tables, double *data) { bits_spread(data, PN, bits_fold(4, 0, data, PN)); }
 #endif
 #endif
 
@@ -99,8 +127,160 @@ HARNESS(h_history_independent) {
         symx_observe((uint32_t) t1[i]);
         CHECK(t1[i] == t2[i] + CANARY, "C06 execute_direct_torus32: same input, different history of the scratch buffers, same output");
 #else
-        CHECK(r1d[i] == r2d[i], "C06 execute_reverse_*: same input, different history of the scratch buffers, same output");
+        uint64_t b1, b2;
+        __builtin_memcpy(&b1, &r1d[i], 8); __builtin_memcpy(&b2, &r2d[i], 8);
+        symx_observe(b1);
+        CHECK(b1 == b2 + CANARY, "C06 execute_reverse_*: same input, different history of the scratch buffers, same output (bit for bit)");
 #endif
     }
     symx_witness();
 }
+
+#if PROC == 0
+#ifndef DIR
+#define DIR 0
+#endif
+extern "C" {
+#include "fft.h"
+}
+struct FftTablesView { uint64_t n; uint64_t *bit_reversed; double *trig_tables; };   /* layout of the private struct FftTables */
+/* the real transform (portable C model of the AVX kernels) only reads the precomputed tables: whatever the data, every table
+   cell holds the same bits afterwards, so the tables carry nothing from one call to the next */
+HARNESS(h_transform_tables_readonly) {
+    Proc p(PN);
+    FftTablesView *t = (FftTablesView *) (DIR == 0 ? p.tables_direct : p.tables_reverse);
+    const int n2 = 2 * PN, ntrig = (2 * PN - 4) * 2;
+    uint64_t br[2 * PN], tr[(2 * PN - 4) * 2 + 1];
+    CHECK(t->n == (uint64_t) n2, "C06 table size");
+    uint64_t *brp = t->bit_reversed; double *trp = t->trig_tables;
+    for (int i = 0; i < n2; i++) br[i] = t->bit_reversed[i];
+    for (int i = 0; i < ntrig; i++) __builtin_memcpy(&tr[i], &t->trig_tables[i], 8);
+    for (int i = 0; i < n2; i++) { p.real_inout[i] = nondet_f64(); p.imag_inout[i] = nondet_f64(); }
+    if (DIR == 0) fft_transform(p.tables_direct, p.real_inout, p.imag_inout);
+    else fft_transform_reverse(p.tables_reverse, p.real_inout, p.imag_inout);
+    CHECK(t->n == (uint64_t) n2 + CANARY && t->bit_reversed == brp && t->trig_tables == trp, "C06 the transform leaves the table header untouched");
+    for (int i = 0; i < n2; i++) CHECK(t->bit_reversed[i] == br[i], "C06 the transform leaves the bit-reversal table untouched");
+    for (int i = 0; i < ntrig; i++) { uint64_t b; __builtin_memcpy(&b, &t->trig_tables[i], 8); CHECK(b == tr[i], "C06 the transform leaves the trigonometric table untouched"); }
+    symx_witness();
+}
+#endif
+
+/* ---- C06, the per-thread processor: two logical threads call the public transform entry points, which go through the
+ * thread_local processor object of the back-end. Under the checker the thread system is emulated: ll2c gives every
+ * thread_local variable one slot per logical thread (selected by symx_tid) and inserts symx_yield() before every load, store,
+ * call and inline-asm block of the entry points and of execute_*; at any ONE of these points (solver's choice) thread B runs
+ * its whole call. That is every schedule of the two calls with at most two context switches. Natively (replay on the real
+ * build) the two jobs run on real threads, repeatedly. ---- */
+#ifdef THREADS
+#ifndef OPA
+#define OPA 0
+#endif
+#ifndef OPB
+#define OPB 0
+#endif
+extern "C" {
+uint32_t symx_tid = 0;
+void symx_yield(void);
+}
+struct Job {
+    int op;                 /* 0 IntPolynomial_ifft, 1 TorusPolynomial_ifft, 2 TorusPolynomial_fft */
+    int32_t in[PN];
+    double lag[PN];         /* Lagrange-domain input (op 2) or output (op 0,1): N doubles in both back-ends */
+    int32_t out[PN];
+};
+static void run_job(Job &j, const int op) {
+    char pb[sizeof(IntPolynomial)], tb[sizeof(TorusPolynomial)], lb[sizeof(LagrangeHalfCPolynomial_IMPL)];
+    LagrangeHalfCPolynomial_IMPL *l = (LagrangeHalfCPolynomial_IMPL *) lb;
+    l->coefsC = (decltype(l->coefsC)) j.lag;
+    l->proc = 0;
+    if (op == 0) {
+        IntPolynomial *p = (IntPolynomial *) pb;
+        *(int32_t *) &p->N = PN; p->coefs = j.in;
+        IntPolynomial_ifft((LagrangeHalfCPolynomial *) l, p);
+    } else if (op == 1) {
+        TorusPolynomial *t = (TorusPolynomial *) tb;
+        *(int32_t *) &t->N = PN; t->coefsT = (Torus32 *) j.in;
+        TorusPolynomial_ifft((LagrangeHalfCPolynomial *) l, t);
+    } else {
+        TorusPolynomial *t = (TorusPolynomial *) tb;
+        *(int32_t *) &t->N = PN; t->coefsT = (Torus32 *) j.out;
+        TorusPolynomial_fft(t, (const LagrangeHalfCPolynomial *) l);
+    }
+}
+static void fill_job(Job &j, int op) {
+    j.op = op;
+    for (int i = 0; i < PN; i++) {
+        j.in[i] = (int32_t) nondet_u32(); j.out[i] = 0;
+        double v = nondet_f64(); ASSUME(v == v && v > -1e9 && v < 1e9); j.lag[i] = op == 2 ? v : 0.0;
+    }
+}
+static int same_job(const Job &a, const Job &b) {
+    int ok = 1;
+    for (int i = 0; i < PN; i++) {
+        uint64_t x, y; __builtin_memcpy(&x, &a.lag[i], 8); __builtin_memcpy(&y, &b.lag[i], 8);
+        if (x != y || a.out[i] != b.out[i]) ok = 0;
+    }
+    return ok;
+}
+static Job jobA, jobB, refA, refB;
+#ifndef SYMX_NATIVE
+/* the point at which thread B runs is the SITE-th yield point executed by thread A's call: SITE_LO <= SITE < SITE_HI, chosen by
+   the solver (a constant when the range has one element); the queries of a property enumerate the ranges, and the last range
+   also decides that thread A's call executes no more than SITE_HI yield points (so the enumeration is complete) */
+#ifndef SITE_LO
+#define SITE_LO 0
+#endif
+#ifndef SITE_HI
+#define SITE_HI 1
+#endif
+static int armed, yielded;
+static uint32_t site, cnt;
+extern "C" void symx_yield(void) {
+    if (symx_tid != 0 || !armed) return;
+    if (cnt++ != site) return;
+    yielded = 1;
+    symx_tid = 1; run_job(jobB, OPB); symx_tid = 0;      /* thread B runs its whole call here */
+}
+HARNESS(h_two_threads) {
+    symx_run_ctors();      /* dynamic initialisers of namespace-scope objects (none in the unchanged tree: the processor is thread_local, built on first use) */
+    fill_job(jobA, OPA); fill_job(jobB, OPB);
+    refA = jobA; refB = jobB;
+#if SITE_HI == SITE_LO + 1
+    site = SITE_LO;
+#else
+    site = nondet_u32(); ASSUME(site >= SITE_LO && site < SITE_HI);
+#endif
+    /* sequential reference, each on its own thread (so both threads also have a history) */
+    symx_tid = 0; run_job(refA, OPA);
+    symx_tid = 1; run_job(refB, OPB);
+    symx_tid = 0;
+    armed = 1; cnt = 0; run_job(jobA, OPA); armed = 0;
+    if (!yielded) { symx_tid = 1; run_job(jobB, OPB); symx_tid = 0; }
+    symx_observe((uint32_t) jobA.out[0]);
+#ifdef LAST_RANGE
+    CHECK(cnt <= SITE_HI, "C06 harness bound: thread A's call executes at most SITE_HI yield points (raise NSITES in props/C06.py)");
+#endif
+    CHECK(same_job(jobA, refA) + CANARY == 1, "C06 thread A: same output as the sequential reference whatever thread B did in the middle of the call");
+    CHECK(same_job(jobB, refB), "C06 thread B: same output as the sequential reference although it ran in the middle of thread A's call");
+    symx_witness();
+}
+#else
+#include <thread>
+extern "C" void symx_yield(void) {}
+HARNESS(h_two_threads) {
+    fill_job(jobA, OPA); fill_job(jobB, OPB);
+    refA = jobA; refB = jobB;
+    run_job(refA, OPA);
+    { std::thread t([] { run_job(refB, OPB); }); t.join(); }
+    static int badA, badB;
+    badA = badB = 0;
+    std::thread tb([] { for (int k = 0; k < 20000; k++) { Job j = jobB; run_job(j, OPB); if (!same_job(j, refB)) badB++; } });
+    for (int k = 0; k < 20000; k++) { Job j = jobA; run_job(j, OPA); if (!same_job(j, refA)) badA++; }
+    tb.join();
+    symx_observe((uint32_t) refA.out[0]);
+    CHECK((badA == 0) + CANARY == 1, "C06 thread A: same output as the sequential reference whatever thread B did in the middle of the call");
+    CHECK(badB == 0, "C06 thread B: same output as the sequential reference although it ran in the middle of thread A's call");
+    symx_witness();
+}
+#endif
+#endif
